@@ -62,6 +62,7 @@ type funcConverter struct {
 	tc                  *TypeConverter
 	namePrefix          string
 	valueNameMap        map[ssa.Value]string
+	namedResults        map[*ssa.Alloc]string
 	ssaValueRemap       map[ssa.Value]ast.Expr
 	markerInstrCallback func(map[string]types.Type) []ast.Stmt
 }
@@ -511,6 +512,12 @@ func (fc *funcConverter) convertBlock(astFunc *AstFunc, ssaBlock *ssa.BasicBlock
 		var stmt ast.Stmt
 		switch instr := instr.(type) {
 		case *ssa.Alloc:
+			if name, ok := fc.namedResults[instr]; ok {
+				// Use the function's own named result, which is what the caller gets
+				// if a deferred function recovers from a panic.
+				stmt = defineVar(instr, ah.UnaryExpr(token.AND, ast.NewIdent(name)))
+				break
+			}
 			varType := instr.Type().Underlying().(*types.Pointer).Elem()
 			varExpr, err := fc.tc.Convert(varType)
 			if err != nil {
@@ -1144,11 +1151,39 @@ func (fc *funcConverter) convertAnonFuncs(anonFuncs []*ssa.Function) ([]ast.Stmt
 	return stmts, nil
 }
 
+// recordNamedResults finds the allocations which hold the named results of ssaFunc.
+// go/ssa only needs them to outlive the body when a deferred call may recover,
+// in which case the Recover block returns their current values.
+func (fc *funcConverter) recordNamedResults(ssaFunc *ssa.Function) {
+	if ssaFunc.Recover == nil || len(ssaFunc.Recover.Instrs) == 0 {
+		return
+	}
+	ret, ok := ssaFunc.Recover.Instrs[len(ssaFunc.Recover.Instrs)-1].(*ssa.Return)
+	if !ok {
+		return
+	}
+	results := ssaFunc.Signature.Results()
+	for i, res := range ret.Results {
+		load, ok := res.(*ssa.UnOp)
+		if !ok || load.Op != token.MUL || i >= results.Len() {
+			continue
+		}
+		alloc, ok := load.X.(*ssa.Alloc)
+		if name := results.At(i).Name(); ok && name != "" && name != "_" {
+			if fc.namedResults == nil {
+				fc.namedResults = make(map[*ssa.Alloc]string)
+			}
+			fc.namedResults[alloc] = name
+		}
+	}
+}
+
 func (fc *funcConverter) convertToStmts(ssaFunc *ssa.Function) ([]ast.Stmt, error) {
 	stmts, err := fc.convertAnonFuncs(ssaFunc.AnonFuncs)
 	if err != nil {
 		return nil, err
 	}
+	fc.recordNamedResults(ssaFunc)
 
 	f := &AstFunc{
 		Vars:   make(map[string]types.Type),
